@@ -2,6 +2,7 @@ package decoder
 
 import (
 	"bytes"
+	"context"
 	"encoding"
 	"encoding/json"
 	"reflect"
@@ -127,7 +128,11 @@ func decodeStreamUnmarshalerContext(s *Stream, depth int64, unmarshaler unmarsha
 	dst := make([]byte, len(src))
 	copy(dst, src)
 
-	if err := unmarshaler.UnmarshalJSON(s.Option.Context, dst); err != nil {
+	stdctx := context.Background()
+	if (s.Option.Flags&ContextOption) != 0 && s.Option.Context != nil {
+		stdctx = s.Option.Context
+	}
+	if err := unmarshaler.UnmarshalJSON(stdctx, dst); err != nil {
 		return err
 	}
 	return nil
@@ -161,7 +166,11 @@ func decodeUnmarshalerContext(ctx *RuntimeContext, buf []byte, cursor, depth int
 	dst := make([]byte, len(src))
 	copy(dst, src)
 
-	if err := unmarshaler.UnmarshalJSON(ctx.Option.Context, dst); err != nil {
+	stdctx := context.Background()
+	if (ctx.Option.Flags&ContextOption) != 0 && ctx.Option.Context != nil {
+		stdctx = ctx.Option.Context
+	}
+	if err := unmarshaler.UnmarshalJSON(stdctx, dst); err != nil {
 		return 0, err
 	}
 	return end, nil
